@@ -283,9 +283,34 @@ func ruleMarker(p *Prog, r *Report) {
 				}
 				gj := ef.fieldG[j]
 				if gi > 0 && gj > gi {
-					ov["."+ef.st.Field(j).Name()] = override{free: true}
-					ov["len(."+ef.st.Field(j).Name()+")"] = override{free: true}
-					ov["*(."+ef.st.Field(j).Name()+")"] = override{free: true}
+					kj := "." + ef.st.Field(j).Name()
+					// the statement adds one marker to a plain version: the other optional parts are
+					// absent on both sides (the value the constructor stores for an empty group);
+					// the marker's own number (next group) and parts with no absent encoding stay free
+					if gj != gi+1 {
+						if isStringType(ef.st.Field(j).Type()) && poolIndex(c.pools[kj], constant.MakeString("")) >= 0 {
+							empty := constant.MakeString("")
+							ov[kj] = override{xConst: &empty, yConst: &empty}
+							ov["~"+kj] = override{free: true}
+							continue
+						}
+						if isIntType(ef.st.Field(j).Type()) {
+							var sent *constant.Value
+							for _, cv := range ef.prov[j].consts {
+								if cv.Kind() == constant.Int && constant.Sign(cv) < 0 && poolIndex(c.pools[kj], cv) >= 0 {
+									v := cv
+									sent = &v
+								}
+							}
+							if sent != nil {
+								ov[kj] = override{xConst: sent, yConst: sent}
+								continue
+							}
+						}
+					}
+					ov[kj] = override{free: true}
+					ov["len("+kj+")"] = override{free: true}
+					ov["*("+kj+")"] = override{free: true}
 				}
 			}
 			return ef.plainPresets(ov)
